@@ -1,19 +1,95 @@
-(* Invariants of the concurrent throttling machine (Model/ThrottleConc.v), for every schedule
-   and any number of callers; generic in the early-rejection predicate, interval function and
-   queueing limit. *)
+(* Invariants of the concurrent throttling machine (Model/ThrottleConc.v: the CAS loop of
+   ThrottlingChecker.DoCheck), for every schedule and any number of callers; generic in the
+   early-rejection predicate, interval function and queueing limit. *)
+From Coq Require Import Permutation.
 From SG Require Import Base.Prelude Base.GoInt Model.Throttle Model.ThrottleConc.
 
-Lemma Forall_upd_nth {A} (P : A -> Prop) n x l : Forall P l -> P x -> Forall P (upd_nth n (fun _ => x) l).
-Proof.
-  intros Hl Hx. revert n. induction Hl as [|y r Hy Hr IH]; intros [|n]; cbn; auto.
+(* ---------- lists ---------- *)
+
+Lemma nth_error_upd_same {A} n (x y : A) l : nth_error l n = Some y -> nth_error (upd_nth n (fun _ => x) l) n = Some x.
+Proof. revert n. induction l as [|a r IH]; intros [|n] H; cbn in *; try discriminate; auto. Qed.
+
+Lemma nth_error_upd_other {A} n m (f : A -> A) l : n <> m -> nth_error (upd_nth n f l) m = nth_error l m.
+Proof. revert n m. induction l as [|a r IH]; intros [|n] [|m] H; cbn in *; try lia; auto. Qed.
+
+Lemma upd_nth_id {A} n (x : A) l : nth_error l n = Some x -> upd_nth n (fun _ => x) l = l.
+Proof. revert n. induction l as [|a r IH]; intros [|n] H; cbn in *; try discriminate; auto.
+  - injection H as ->. reflexivity.
+  - rewrite IH; auto.
 Qed.
 
-Lemma nth_error_Forall {A} (P : A -> Prop) l n x : Forall P l -> nth_error l n = Some x -> P x.
+(* ---------- the ghost log under append ---------- *)
+
+Lemma grants_of_app l1 l2 : grants_of (l1 ++ l2) = grants_of l1 ++ grants_of l2.
+Proof. induction l1 as [|e r IH]; cbn; auto. destruct e; cbn; rewrite ?IH; auto. Qed.
+
+Lemma gtids_app l1 l2 : gtids (l1 ++ l2) = gtids l1 ++ gtids l2.
+Proof. induction l1 as [|e r IH]; cbn; auto. destruct e; cbn; rewrite ?IH; auto. Qed.
+
+Lemma fails_app tid l1 l2 : fails tid (l1 ++ l2) = (fails tid l1 + fails tid l2)%nat.
+Proof. unfold fails. rewrite filter_app, app_length. reflexivity. Qed.
+
+Lemma others_app tid l1 l2 : others tid (l1 ++ l2) = (others tid l1 + others tid l2)%nat.
+Proof. unfold others. rewrite gtids_app, filter_app, app_length. reflexivity. Qed.
+
+Lemma since_snoc tid l e :
+  since tid (l ++ [e]) = if Nat.eqb (ev_tid e) tid then [] else since tid l ++ [e].
+Proof. unfold since. rewrite fold_left_app. reflexivity. Qed.
+
+Lemma since_app_other tid l g : Forall (fun e => ev_tid e <> tid) g -> since tid (l ++ g) = since tid l ++ g.
 Proof.
-  intros Hl. revert n. induction Hl as [|y r Hy Hr IH]; intros [|n] H; cbn in H; try discriminate.
-  - injection H as <-. exact Hy.
-  - eapply IH; eauto.
+  intro H. revert l. induction H as [|e r He Hr IH]; intro l; [rewrite !app_nil_r; reflexivity|].
+  replace (l ++ e :: r) with ((l ++ [e]) ++ r) by (rewrite <- app_assoc; reflexivity).
+  rewrite IH, since_snoc. destruct (Nat.eqb (ev_tid e) tid) eqn:E; [apply Nat.eqb_eq in E; contradiction|].
+  rewrite <- app_assoc. reflexivity.
 Qed.
+
+Lemma since_app_self tid l g e : ev_tid e = tid -> since tid (l ++ g ++ [e]) = [].
+Proof. intro H. rewrite app_assoc, since_snoc. rewrite H, Nat.eqb_refl. reflexivity. Qed.
+
+Lemma gtids_in_ev t g : In t (gtids g) -> exists e, In e g /\ ev_tid e = t.
+Proof.
+  induction g as [|e r IH]; cbn; [tauto|]. destruct e; cbn; intro H;
+    try (destruct (IH H) as (e & He & Ht); exists e; split; [right; exact He|exact Ht]).
+  destruct H as [<-|H]; [eexists; split; [left; reflexivity|reflexivity]|].
+  destruct (IH H) as (e & He & Ht); exists e; split; [right; exact He|exact Ht].
+Qed.
+
+Lemma fails_none tid g : Forall (fun e => ev_tid e <> tid) g -> fails tid g = 0%nat.
+Proof.
+  unfold fails. induction 1 as [|e r He Hr IH]; cbn; auto.
+  destruct e; cbn in *; auto. destruct (Nat.eqb tid0 tid) eqn:E; [apply Nat.eqb_eq in E; contradiction|exact IH].
+Qed.
+
+Lemma others_all tid g : Forall (fun e => ev_tid e <> tid) g -> others tid g = length (gtids g).
+Proof.
+  unfold others. induction 1 as [|e r He Hr IH]; cbn; auto.
+  destruct e; cbn in *; auto. destruct (Nat.eqb tid0 tid) eqn:E; [apply Nat.eqb_eq in E; contradiction|cbn; rewrite IH; reflexivity].
+Qed.
+
+Lemma others_self tid g : Forall (fun e => ev_tid e = tid) g -> others tid g = 0%nat.
+Proof.
+  unfold others. induction 1 as [|e r He Hr IH]; cbn; auto.
+  destruct e; cbn in *; auto. subst. rewrite Nat.eqb_refl. cbn. exact IH.
+Qed.
+
+Lemma exists_grant_len tid l : Exists (granted_to_other tid) l -> (1 <= length (gtids l))%nat.
+Proof.
+  induction 1 as [e r He|e r Hr IH].
+  - destruct e; cbn in *; try contradiction. lia.
+  - destruct e; cbn; lia.
+Qed.
+
+Lemma fails_justified_app pre l1 l2 :
+  fails_justified pre (l1 ++ l2) <-> fails_justified pre l1 /\ fails_justified (pre ++ l1) l2.
+Proof.
+  revert pre. induction l1 as [|e r IH]; intro pre; cbn [app fails_justified].
+  - rewrite app_nil_r. tauto.
+  - rewrite IH. rewrite <- app_assoc. cbn [app]. tauto.
+Qed.
+
+Lemma last_pass_app prev l1 l2 : last_pass prev (l1 ++ l2) = last_pass (last_pass prev l1) l2.
+Proof. unfold last_pass. apply fold_left_app. Qed.
 
 Section Generic.
   Variable blk : Z -> bool.
@@ -23,150 +99,7 @@ Section Generic.
   Notation tstep := (tstep blk iv maxq).
   Notation cstep := (cstep blk iv maxq).
   Notation cexec := (cexec blk iv maxq).
-
-  (* ---------- per-thread and per-event facts that hold on every schedule ---------- *)
-
-  Definition wait_ok (w : Z) : Prop := 0 <= w /\ (0 <= maxq -> w <= maxq).
-
-  Definition thr_inv (th : thread) : Prop :=
-    (t_pc th = P202 -> t_loaded th + iv (t_b th) <= t_now th) /\
-    (forall w, t_out th = Some (OPass w) -> wait_ok w).
-
-  Definition gev_inv (e : gev) : Prop :=
-    match e with
-    | EGrant _ now b w la => wait_ok w /\ la <= now + w /\ 1 <= b /\ blk b = false
-    | EBlock _ now b seen => seen + iv b - now > maxq
-    | _ => True
-    end.
-
-  Definition all_inv (s : cst) : Prop := Forall thr_inv (c_threads s) /\ Forall gev_inv (c_log s).
-
-  Lemma tstep_inv tid last clock th :
-    thr_inv th ->
-    (t_pc th = PStart \/ (1 <= t_b th /\ blk (t_b th) = false)) ->
-    thr_inv (snd (fst (tstep tid last clock th))) /\ Forall gev_inv (snd (tstep tid last clock th)) /\
-    (let th' := snd (fst (tstep tid last clock th)) in t_pc th' = PStart \/ t_pc th' = PDone \/ (1 <= t_b th' /\ blk (t_b th') = false)).
-  Proof.
-    intros [H202 Hout] Hb. unfold ThrottleConc.tstep.
-    destruct (t_pc th) eqn:Epc.
-    - destruct (t_b th <=? 0) eqn:E0; cbn [fst snd].
-      + split; [|split; [constructor|cbn; auto]]. split; cbn; [discriminate|]. intros w H; discriminate.
-      + destruct (blk (t_b th)) eqn:Ek; cbn [fst snd].
-        * split; [|split; [constructor|cbn; auto]]. split; cbn; [discriminate|]. intros w H; discriminate.
-        * split; [|split; [constructor|cbn; right; right; split; [lia|exact Ek]]]. split; cbn; [discriminate|]. intros w H; discriminate.
-    - destruct Hb as [Hb|Hb]; [discriminate|]. cbn [fst snd]. split; [|split; [constructor|cbn; auto]].
-      split; cbn [t_pc t_loaded t_b t_now t_out].
-      + destruct (last + iv (t_b th) <=? t_now th) eqn:E; [lia|discriminate].
-      + intros w H; discriminate.
-    - destruct Hb as [Hb|Hb]; [discriminate|].
-      destruct (last =? t_loaded th) eqn:E; cbn [fst snd].
-      + split; [|split].
-        * split; cbn; [discriminate|]. intros w H. injection H as <-. unfold wait_ok. lia.
-        * constructor; [|constructor]. cbn. unfold wait_ok. repeat split; try lia. apply Hb.
-        * cbn; auto.
-      + split; [|split; [constructor|cbn; auto]]. split; cbn; [discriminate|exact Hout].
-    - destruct Hb as [Hb|Hb]; [discriminate|].
-      destruct (last + iv (t_b th) - t_now th >? maxq) eqn:E; cbn [fst snd].
-      + split; [|split].
-        * split; cbn; [discriminate|]. intros w H; discriminate.
-        * constructor; [|constructor]. cbn. lia.
-        * cbn; auto.
-      + split; [|split; [constructor|cbn; auto]]. split; cbn; [discriminate|exact Hout].
-    - destruct Hb as [Hb|Hb]; [discriminate|].
-      destruct (last + iv (t_b th) - t_now th >? maxq) eqn:E; cbn [fst snd].
-      + split; [|split; [repeat constructor|cbn; auto]]. split; cbn; [discriminate|exact Hout].
-      + assert (Hw : wait_ok (if last + iv (t_b th) - t_now th >? 0 then last + iv (t_b th) - t_now th else 0)).
-        { unfold wait_ok. destruct (last + iv (t_b th) - t_now th >? 0) eqn:E2; lia. }
-        split; [|split].
-        * split; cbn; [discriminate|]. intros w H. injection H as <-. exact Hw.
-        * constructor; [|constructor]. cbn. split; [exact Hw|]. split; [|exact Hb].
-          destruct (last + iv (t_b th) - t_now th >? 0) eqn:E2; lia.
-        * cbn; auto.
-    - cbn [fst snd]. split; [|split; [repeat constructor|cbn; auto]]. split; cbn; [discriminate|]. intros w H; discriminate.
-    - cbn [fst snd]. split; [split; [intro HH; congruence|exact Hout]|split; [constructor|auto]].
-  Qed.
-
-  (* threads past Start carry an admissible batch *)
-  Definition thr_adm (th : thread) : Prop :=
-    t_pc th = PStart \/ t_pc th = PDone \/ (1 <= t_b th /\ blk (t_b th) = false).
-
-  Definition all_inv2 (s : cst) : Prop := all_inv s /\ Forall thr_adm (c_threads s).
-
-  Lemma cstep_inv s e : all_inv2 s -> all_inv2 (cstep s e).
-  Proof.
-    intros [[Ht Hl] Ha]. destruct e as [tid|t]; cbn [ThrottleConc.cstep]; [|repeat split; assumption].
-    destruct (nth_error (c_threads s) tid) as [th|] eqn:En; [|repeat split; assumption].
-    pose proof (nth_error_Forall _ _ _ _ Ht En) as Hth.
-    pose proof (nth_error_Forall _ _ _ _ Ha En) as Hath.
-    destruct (t_pc th) eqn:Epc.
-    all: try (assert (Hb : t_pc th = PStart \/ (1 <= t_b th /\ blk (t_b th) = false))
-      by (destruct Hath as [H|[H|H]]; [left; exact H|congruence|right; exact H]);
-      pose proof (tstep_inv tid (c_last s) (c_clock s) th Hth Hb) as (H1 & H2 & H3);
-      destruct (tstep tid (c_last s) (c_clock s) th) as [[l th'] g]; cbn [fst snd] in *;
-      split; [split; cbn [c_threads c_log]; [apply Forall_upd_nth; assumption|apply Forall_app; split; assumption]
-             |cbn [c_threads]; apply Forall_upd_nth; [assumption|exact H3]]).
-    (* PDone *)
-    unfold ThrottleConc.tstep. rewrite Epc. cbn [c_threads c_log].
-    split; [split|]; [apply Forall_upd_nth; assumption|rewrite app_nil_r; assumption|apply Forall_upd_nth; assumption].
-  Qed.
-
-  Lemma cexec_inv sched s : all_inv2 s -> all_inv2 (cexec sched s).
-  Proof. revert s. induction sched as [|e r IH]; intros s H; cbn; [exact H|]. apply IH. apply cstep_inv. exact H. Qed.
-
-  Lemma cinit_inv bs : all_inv2 (cinit bs).
-  Proof.
-    unfold all_inv2, all_inv, cinit; cbn. repeat split; try constructor.
-    - induction bs; cbn; constructor; auto. split; cbn; [discriminate|intros w H; discriminate].
-    - induction bs; cbn; constructor; auto. left. reflexivity.
-  Qed.
-
-  (* every admitted caller, on every schedule: 0 <= wait <= maxq *)
-  Lemma conc_wait_bound bs sched : 0 <= maxq ->
-    Forall (fun o => match o with Some (OPass w) => 0 <= w <= maxq | _ => True end)
-           (outcomes (cexec sched (cinit bs))).
-  Proof.
-    intro Hq. destruct (cexec_inv sched _ (cinit_inv bs)) as [[Ht _] _].
-    unfold outcomes. induction Ht as [|th r Hth Hr IH]; cbn; constructor; auto.
-    destruct (t_out th) as [[| w |]|] eqn:E; auto.
-    destruct Hth as [_ Ho]. destruct (Ho w E) as [H1 H2]. lia.
-  Qed.
-
-  (* every grant, on every schedule: pass time >= arrival, wait bounded, stored time never
-     ahead of the pass time *)
-  Lemma conc_grants_ok bs sched :
-    Forall (fun e => match e with
-                     | EGrant _ now b w la => 0 <= w /\ now <= now + w /\ la <= now + w /\ (0 <= maxq -> w <= maxq)
-                     | _ => True end) (c_log (cexec sched (cinit bs))).
-  Proof.
-    destruct (cexec_inv sched _ (cinit_inv bs)) as [[_ Hl] _].
-    induction Hl as [|e r He Hr IH]; constructor; auto.
-    destruct e; auto. cbn in He. destruct He as ([H1 H2] & H3 & _). repeat split; try lia; try exact H2.
-  Qed.
-
-  Lemma conc_pass_ge_arrival bs sched :
-    Forall (fun g => g_now g <= g_pass g) (grants_of (c_log (cexec sched (cinit bs)))).
-  Proof.
-    pose proof (conc_grants_ok bs sched) as H.
-    induction H as [|e r He Hr IH]; cbn [grants_of]; [constructor|].
-    destruct e; auto. constructor; [cbn; lia|exact IH].
-  Qed.
-
-  (* a rejection at 203 is justified by the value the caller loaded *)
-  Lemma conc_block_seen bs sched :
-    Forall (fun e => match e with EBlock _ now b seen => seen + iv b - now > maxq | _ => True end)
-           (c_log (cexec sched (cinit bs))).
-  Proof.
-    destruct (cexec_inv sched _ (cinit_inv bs)) as [[_ Hl] _].
-    induction Hl as [|e r He Hr IH]; constructor; auto. destruct e; auto.
-  Qed.
-
-  (* ---------- spacing, on schedules without rollback and without stale add ---------- *)
-
-  Lemma grants_of_app l1 l2 : grants_of (l1 ++ l2) = grants_of l1 ++ grants_of l2.
-  Proof. induction l1 as [|e r IH]; cbn; auto. destruct e; cbn; rewrite ?IH; auto. Qed.
-
-  Lemma last_pass_app prev l1 l2 : last_pass prev (l1 ++ l2) = last_pass (last_pass prev l1) l2.
-  Proof. unfold last_pass. apply fold_left_app. Qed.
+  Notation pass_of := (pass_of iv).
 
   Lemma spaced_app prev l1 l2 : spaced iv prev (l1 ++ l2) <-> spaced iv prev l1 /\ spaced iv (last_pass prev l1) l2.
   Proof.
@@ -175,84 +108,321 @@ Section Generic.
     - rewrite IH. unfold last_pass. tauto.
   Qed.
 
-  Definition sp_inv (s : cst) : Prop :=
-    rollback_free (c_log s) -> stale_free (c_log s) ->
-    spaced iv last0 (grants_of (c_log s)) /\ c_last s = last_pass last0 (grants_of (c_log s)).
+  (* ---------- the invariant ---------- *)
 
-  Definition good (s : cst) : Prop := all_inv2 s /\ sp_inv s.
+  Definition adm (th : thread) : Prop := 1 <= t_b th /\ blk (t_b th) = false.
 
-  Lemma cstep_good s e : good s -> good (cstep s e).
-  Proof.
-    intros [Hi Hs]. split; [apply cstep_inv; exact Hi|].
-    destruct e as [tid|t]; cbn [ThrottleConc.cstep]; [|exact Hs].
-    destruct (nth_error (c_threads s) tid) as [th|] eqn:En; [|exact Hs].
-    destruct Hi as [[Ht _] _].
-    pose proof (nth_error_Forall _ _ _ _ Ht En) as [H202 _].
-    unfold sp_inv in *. unfold ThrottleConc.tstep.
-    destruct (t_pc th) eqn:Epc.
-    - destruct (t_b th <=? 0); [|destruct (blk (t_b th))]; cbn [c_log c_last]; rewrite app_nil_r; exact Hs.
-    - cbn [c_log c_last]; rewrite app_nil_r; exact Hs.
-    - destruct (c_last s =? t_loaded th) eqn:E; cbn [c_log c_last]; [|rewrite app_nil_r; exact Hs].
-      intros Hrf Hsf. apply Forall_app in Hrf as [Hrf _]. apply Forall_app in Hsf as [Hsf _].
-      destruct (Hs Hrf Hsf) as [Hsp Hl].
-      rewrite grants_of_app. cbn [grants_of]. rewrite last_pass_app, spaced_app.
-      cbn [spaced last_pass fold_left g_pass g_b]. rewrite <- Hl.
-      specialize (H202 eq_refl). repeat split; try assumption; lia.
-    - destruct (c_last s + iv (t_b th) - t_now th >? maxq); cbn [c_log c_last].
-      + intros Hrf Hsf. apply Forall_app in Hrf as [Hrf _]. apply Forall_app in Hsf as [Hsf _].
-        rewrite grants_of_app. cbn [grants_of]. rewrite app_nil_r. exact (Hs Hrf Hsf).
-      + rewrite app_nil_r; exact Hs.
-    - destruct (c_last s + iv (t_b th) - t_now th >? maxq); cbn [c_log c_last].
-      + intros Hrf _. apply Forall_app in Hrf as [_ Hrf]. inversion Hrf as [|? ? Hx _]; subst. destruct Hx.
-      + intros Hrf Hsf. apply Forall_app in Hrf as [Hrf _]. apply Forall_app in Hsf as [Hsf Hnew].
-        inversion Hnew as [|? ? Hx _]; subst. cbn in Hx.
-        destruct (Hs Hrf Hsf) as [Hsp Hl].
-        rewrite grants_of_app. cbn [grants_of]. rewrite last_pass_app, spaced_app.
-        cbn [spaced last_pass fold_left g_pass g_b]. rewrite <- Hl.
-        repeat split; try assumption; lia.
-    - cbn [c_log c_last]. intros Hrf _. apply Forall_app in Hrf as [_ Hrf]. inversion Hrf as [|? ? Hx _]; subst. destruct Hx.
-    - cbn [c_log c_last]; rewrite app_nil_r; exact Hs.
-  Qed.
+  (* caller `tid` in state `th`, shared value `last`, log `log` *)
+  Definition thr_inv (last : Z) (log : list gev) (tid : nat) (th : thread) : Prop :=
+    (t_pc th = P201 \/ t_pc th = P202 -> adm th /\ t_out th = None) /\
+    (t_pc th = P202 ->
+       pass_of (t_loaded th) (t_now th) (t_b th) - t_now th <= maxq /\
+       (exists l0, log = l0 ++ ELoad tid (t_loaded th) :: since tid log) /\
+       (last = t_loaded th \/ Exists (granted_to_other tid) (since tid log)) /\
+       (fails tid log + length (gtids (since tid log)) <= others tid log)%nat) /\
+    (t_pc th <> PDone -> ~ In tid (gtids log)) /\
+    (fails tid log <= others tid log)%nat /\
+    (forall w, t_out th = Some (OPass w) ->
+       t_pc th = PDone /\ exists seen, In (EGrant tid (t_now th) (t_b th) w seen) log) /\
+    (t_out th = Some OBlock ->
+       t_pc th = PDone /\ 1 <= t_b th /\
+       (blk (t_b th) = true \/ exists seen, In (EBlock tid (t_now th) (t_b th) seen) log)).
 
-  Lemma cexec_good sched s : good s -> good (cexec sched s).
-  Proof. revert s. induction sched as [|e r IH]; intros s H; cbn; [exact H|]. apply IH. apply cstep_good. exact H. Qed.
-
-  Lemma cinit_good bs : good (cinit bs).
-  Proof. split; [apply cinit_inv|]. intros _ _. cbn. auto. Qed.
-
-  (* boolean mirrors, used to evaluate the statements on concrete witnesses *)
-  Fixpoint spacedb (prev : Z) (gs : list grant) : bool :=
-    match gs with
-    | [] => true
-    | g :: r => (iv (g_b g) <=? g_pass g - prev) && spacedb (g_pass g) r
+  Definition gev_inv (ths : list thread) (e : gev) : Prop :=
+    match e with
+    | EGrant tid now b w seen =>
+        now + w = pass_of seen now b /\ w <= maxq /\ 1 <= b /\ blk b = false /\
+        exists th, nth_error ths tid = Some th /\ t_pc th = PDone /\
+                   t_out th = Some (OPass w) /\ t_now th = now /\ t_b th = b
+    | EBlock tid now b seen =>
+        pass_of seen now b - now > maxq /\ 1 <= b /\ blk b = false /\
+        exists th, nth_error ths tid = Some th /\ t_pc th = PDone /\
+                   t_out th = Some OBlock /\ t_now th = now /\ t_b th = b
+    | _ => True
     end.
 
-  Lemma spacedb_spec prev gs : spacedb prev gs = true <-> spaced iv prev gs.
+  Definition inv (s : cst) : Prop :=
+    (forall tid th, nth_error (c_threads s) tid = Some th -> thr_inv (c_last s) (c_log s) tid th) /\
+    Forall (gev_inv (c_threads s)) (c_log s) /\
+    (spaced iv last0 (grants_of (c_log s)) /\ c_last s = last_pass last0 (grants_of (c_log s))) /\
+    fails_justified [] (c_log s) /\
+    NoDup (gtids (c_log s)) /\
+    (forall t, In t (gtids (c_log s)) -> (t < length (c_threads s))%nat).
+
+  (* a step of caller `tid` as seen by another caller `tid0` *)
+  Lemma thr_inv_other last last' log g tid tid0 th0 :
+    tid0 <> tid ->
+    Forall (fun e => ev_tid e = tid) g ->
+    (last' = last \/ Exists (granted_to_other tid0) g) ->
+    thr_inv last log tid0 th0 -> thr_inv last' (log ++ g) tid0 th0.
   Proof.
-    revert prev. induction gs as [|g r IH]; intro prev; cbn [spacedb spaced]; [tauto|].
-    rewrite andb_true_iff, IH, Z.leb_le. split; intros [H1 H2]; split; auto; lia.
+    intros Hne Hg Hl (H1 & H2 & H3 & H4 & H5 & H6).
+    assert (Hg' : Forall (fun e => ev_tid e <> tid0) g).
+    { eapply Forall_impl; [|exact Hg]. cbn. intros e He. congruence. }
+    split; [exact H1|]. split; [|split; [|split; [|split]]].
+    - intro Hpc. destruct (H2 Hpc) as (Ha & (l0 & Hb) & Hc & Hd).
+      rewrite since_app_other by exact Hg'.
+      split; [exact Ha|]. split; [|split].
+      + exists l0. rewrite Hb at 1. rewrite <- app_assoc. reflexivity.
+      + destruct Hl as [->|Hl].
+        * destruct Hc as [Hc|Hc]; [left; exact Hc|right; apply Exists_app; left; exact Hc].
+        * right. apply Exists_app. right. exact Hl.
+      + rewrite fails_app, others_app, gtids_app, app_length, (fails_none _ _ Hg'), (others_all _ _ Hg'). lia.
+    - intros Hpc Hin. rewrite gtids_app in Hin. apply in_app_or in Hin as [Hin|Hin]; [exact (H3 Hpc Hin)|].
+      apply gtids_in_ev in Hin as (e & He & Ht).
+      rewrite Forall_forall in Hg. specialize (Hg e He). congruence.
+    - rewrite fails_app, others_app, (fails_none _ _ Hg'). lia.
+    - intros w Hw. destruct (H5 w Hw) as (Ha & seen & Hb). split; [exact Ha|]. exists seen. apply in_or_app. left; exact Hb.
+    - intro Hb. destruct (H6 Hb) as (Ha & Hc & Hd). split; [exact Ha|]. split; [exact Hc|].
+      destruct Hd as [Hd|[seen Hd]]; [left; exact Hd|right; exists seen; apply in_or_app; left; exact Hd].
   Qed.
 
-  Definition rollback_freeb (l : list gev) : bool :=
-    forallb (fun e => match e with EAddOver _ _ | ERollback _ _ => false | _ => true end) l.
-  Definition stale_freeb (l : list gev) : bool :=
-    forallb (fun e => match e with EGrant _ now _ w la => la =? now + w | _ => true end) l.
-
-  Lemma rollback_freeb_spec l : rollback_freeb l = true <-> rollback_free l.
+  Lemma gev_inv_upd ths tid th th' e :
+    nth_error ths tid = Some th -> (t_pc th = PDone -> th' = th) ->
+    gev_inv ths e -> gev_inv (upd_nth tid (fun _ => th') ths) e.
   Proof.
-    unfold rollback_freeb, rollback_free. rewrite forallb_forall, Forall_forall.
-    split; intros H e He; specialize (H e He); destruct e; auto; try discriminate; destruct H.
+    intros Hn Hd. destruct e as [t seen|t now b w seen|t|t now b seen]; cbn; auto.
+    - intros (H1 & H2 & H3 & H4 & th0 & Hn0 & Hpc & Hr). repeat split; auto.
+      exists th0. split; [|split; [exact Hpc|exact Hr]].
+      destruct (Nat.eq_dec tid t) as [->|Hne].
+      + rewrite Hn in Hn0. injection Hn0 as <-. rewrite (Hd Hpc). rewrite upd_nth_id; auto.
+      + rewrite nth_error_upd_other; auto.
+    - intros (H1 & H3 & H4 & th0 & Hn0 & Hpc & Hr). repeat split; auto.
+      exists th0. split; [|split; [exact Hpc|exact Hr]].
+      destruct (Nat.eq_dec tid t) as [->|Hne].
+      + rewrite Hn in Hn0. injection Hn0 as <-. rewrite (Hd Hpc). rewrite upd_nth_id; auto.
+      + rewrite nth_error_upd_other; auto.
   Qed.
 
-  Lemma stale_freeb_spec l : stale_freeb l = true <-> stale_free l.
+  (* assembling the invariant after a step of caller `tid` *)
+  Lemma inv_assemble s tid th th' last' g :
+    inv s -> nth_error (c_threads s) tid = Some th ->
+    Forall (fun e => ev_tid e = tid) g ->
+    (t_pc th = PDone -> th' = th) ->
+    thr_inv last' (c_log s ++ g) tid th' ->
+    Forall (gev_inv (upd_nth tid (fun _ => th') (c_threads s))) g ->
+    ((last' = c_last s /\ grants_of g = [] /\ gtids g = []) \/
+     (exists now b w, g = [EGrant tid now b w (c_last s)] /\ last' = now + w /\
+                      now + w - c_last s >= iv b /\ t_pc th <> PDone)) ->
+    fails_justified (c_log s) g ->
+    inv {| c_last := last'; c_clock := c_clock s;
+           c_threads := upd_nth tid (fun _ => th') (c_threads s);
+           c_log := c_log s ++ g |}.
   Proof.
-    unfold stale_freeb, stale_free. rewrite forallb_forall, Forall_forall.
-    split; intros H e He; specialize (H e He); destruct e; auto; lia.
+    intros (It & Ie & (Is1 & Is2) & If & In1 & In2) Hn Hg Hd Hself Hnew Hlast Hfj.
+    unfold inv; cbn [c_last c_threads c_log].
+    split; [|split; [|split; [|split; [|split]]]].
+    - intros tid0 th0 Hn0. destruct (Nat.eq_dec tid tid0) as [<-|Hne].
+      + rewrite (nth_error_upd_same _ _ _ _ Hn) in Hn0. injection Hn0 as <-. exact Hself.
+      + rewrite nth_error_upd_other in Hn0 by exact Hne.
+        apply (thr_inv_other (c_last s) last' (c_log s) g tid tid0 th0); [congruence|exact Hg| |exact (It _ _ Hn0)].
+        destruct Hlast as [(-> & _)|(now & b & w & -> & _)]; [left; reflexivity|].
+        right. constructor. cbn. congruence.
+    - apply Forall_app. split; [|exact Hnew].
+      eapply Forall_impl; [|exact Ie]. intros e He. eapply gev_inv_upd; eauto.
+    - rewrite grants_of_app, last_pass_app, spaced_app.
+      destruct Hlast as [(-> & -> & _)|(now & b & w & -> & -> & Hsp & _)].
+      + cbn. auto.
+      + cbn [grants_of spaced last_pass fold_left g_pass g_b]. rewrite <- Is2. auto.
+    - apply fails_justified_app. split; [exact If|exact Hfj].
+    - rewrite gtids_app. destruct Hlast as [(_ & _ & ->)|(now & b & w & -> & _ & _ & Hpc)].
+      + rewrite app_nil_r. exact In1.
+      + cbn [gtids]. eapply Permutation_NoDup; [apply Permutation_cons_append|].
+        constructor; [|exact In1]. destruct (It _ _ Hn) as (_ & _ & H3 & _). exact (H3 Hpc).
+    - intros t Ht. rewrite upd_nth_length. rewrite gtids_app in Ht. apply in_app_or in Ht as [Ht|Ht]; [exact (In2 _ Ht)|].
+      apply gtids_in_ev in Ht as (e & He & Het). rewrite Forall_forall in Hg. rewrite (Hg e He) in Het. subst t.
+      apply nth_error_Some. congruence.
   Qed.
 
-  Lemma conc_spacing_partial bs sched :
+  Lemma cstep_inv s e : inv s -> inv (cstep s e).
+  Proof.
+    intro Hi. destruct e as [tid|t]; cbn [ThrottleConc.cstep]; [|exact Hi].
+    destruct (nth_error (c_threads s) tid) as [th|] eqn:En; [|exact Hi].
+    pose proof Hi as (It & _). pose proof (It _ _ En) as (H1 & H2 & H3 & H4 & H5 & H6).
+    unfold ThrottleConc.tstep. destruct (t_pc th) eqn:Epc.
+    - (* Start *)
+      destruct (t_b th <=? 0) eqn:E0; [|destruct (blk (t_b th)) eqn:Ek].
+      all: apply inv_assemble with (th := th);
+        [exact Hi|exact En|constructor|intro; congruence| |constructor|left; auto|exact I].
+      all: rewrite app_nil_r; unfold thr_inv, adm; cbn [t_pc t_b t_now t_loaded t_out done].
+      + split; [intros [?|?]; congruence|]. split; [intro; congruence|]. split; [intro; congruence|].
+        split; [exact H4|]. split; [intros w Hw; congruence|intro; congruence].
+      + split; [intros [?|?]; congruence|]. split; [intro; congruence|]. split; [intro; congruence|].
+        split; [exact H4|]. split; [intros w Hw; congruence|]. intros _. split; [reflexivity|]. split; [clear - E0; lia|left; exact Ek].
+      + split; [intros _; split; [split; [clear - E0; lia|exact Ek]|reflexivity]|]. split; [intro; congruence|].
+        split; [intros _; apply H3; congruence|].
+        split; [exact H4|]. split; [intros w Hw; congruence|intro; congruence].
+    - (* 201: load *)
+      destruct (H1 (or_introl eq_refl)) as ([Hb Hk] & Ho).
+      assert (Hf : fails tid (c_log s ++ [ELoad tid (c_last s)]) = fails tid (c_log s))
+        by (rewrite fails_app; cbn; lia).
+      assert (Hot : others tid (c_log s ++ [ELoad tid (c_last s)]) = others tid (c_log s))
+        by (rewrite others_app; cbn; lia).
+      destruct (pass_of (c_last s) (t_now th) (t_b th) - t_now th >? maxq) eqn:Eq.
+      + (* blocked *)
+        apply inv_assemble with (th := th); [exact Hi|exact En|repeat constructor|intro; congruence| | |left; auto|cbn; auto].
+        * unfold thr_inv, adm; cbn [t_pc t_b t_now t_loaded t_out done].
+          split; [intros [?|?]; congruence|]. split; [intro; congruence|]. split; [intro; congruence|].
+          split; [rewrite fails_app, others_app; cbn; lia|]. split; [intros w Hw; congruence|].
+          intros _. split; [reflexivity|]. split; [exact Hb|].
+          right. exists (c_last s). apply in_or_app. right. right. left. reflexivity.
+        * constructor; [exact I|]. constructor; [|constructor]. cbn.
+          split; [lia|]. split; [exact Hb|]. split; [exact Hk|].
+          eexists. split; [eapply nth_error_upd_same; exact En|]. cbn. auto.
+      + (* on to the CAS *)
+        apply inv_assemble with (th := th); [exact Hi|exact En|repeat constructor|intro; congruence| | |left; auto|cbn; auto].
+        * unfold thr_inv, adm; cbn [t_pc t_b t_now t_loaded t_out].
+          assert (Hs : since tid (c_log s ++ [ELoad tid (c_last s)]) = [])
+            by (rewrite since_snoc; cbn; rewrite Nat.eqb_refl; reflexivity).
+          split; [intros _; split; [split; assumption|reflexivity]|].
+          split; [intros _; rewrite Hs; split; [lia|split; [exists (c_log s); reflexivity|split; [left; reflexivity|cbn; lia]]]|].
+          split; [intros _; rewrite gtids_app; cbn; rewrite app_nil_r; apply H3; congruence|].
+          split; [lia|]. split; [intros w Hw; congruence|intro; congruence].
+        * constructor; [exact I|constructor].
+    - (* 202: CAS *)
+      destruct (H1 (or_intror eq_refl)) as ([Hb Hk] & Ho).
+      destruct (H2 eq_refl) as (Hq & (l0 & Hl0) & Hdis & Hcnt).
+      destruct (c_last s =? t_loaded th) eqn:Ec.
+      + (* success *)
+        assert (Hc : c_last s = t_loaded th) by lia.
+        apply inv_assemble with (th := th); [exact Hi|exact En|repeat constructor|intro; congruence| | | |cbn; auto].
+        * unfold thr_inv, adm; cbn [t_pc t_b t_now t_loaded t_out done].
+          split; [intros [?|?]; congruence|]. split; [intro; congruence|]. split; [intro; congruence|].
+          split; [rewrite fails_app, others_app; cbn; rewrite Nat.eqb_refl; cbn; lia|].
+          split; [|intro; congruence].
+          intros w Hw. injection Hw as <-. split; [reflexivity|]. eexists. apply in_or_app. right. left. reflexivity.
+        * constructor; [|constructor]. cbn.
+          split; [lia|]. split; [lia|]. split; [exact Hb|]. split; [exact Hk|].
+          eexists. split; [eapply nth_error_upd_same; exact En|]. cbn. auto.
+        * right. exists (t_now th), (t_b th), (pass_of (t_loaded th) (t_now th) (t_b th) - t_now th).
+          rewrite Hc. split; [reflexivity|]. split; [lia|]. split; [unfold ThrottleConc.pass_of; lia|congruence].
+      + (* failure: retry *)
+        assert (Hc : c_last s <> t_loaded th) by lia.
+        destruct Hdis as [Hdis|Hdis]; [contradiction|].
+        pose proof (exists_grant_len _ _ Hdis) as Hlen.
+        apply inv_assemble with (th := th); [exact Hi|exact En|repeat constructor|intro; congruence| | |left; auto| ].
+        * unfold thr_inv, adm; cbn [t_pc t_b t_now t_loaded t_out goto].
+          split; [intros _; split; [split; assumption|exact Ho]|].
+          split; [intro; congruence|].
+          split; [intros _; rewrite gtids_app; cbn; rewrite app_nil_r; apply H3; congruence|].
+          split; [rewrite fails_app, others_app; cbn; rewrite Nat.eqb_refl; cbn; lia|].
+          rewrite Ho. split; [intros w Hw; congruence|intro; congruence].
+        * constructor; [exact I|constructor].
+        * cbn. split; [|exact I]. split; [|exact Hdis]. exists (t_loaded th), l0. exact Hl0.
+    - (* Done *)
+      replace (upd_nth tid (fun _ => th) (c_threads s)) with (c_threads s) by (symmetry; apply upd_nth_id; exact En).
+      rewrite app_nil_r. destruct s; exact Hi.
+  Qed.
+
+  Lemma cexec_inv sched s : inv s -> inv (cexec sched s).
+  Proof. revert s. induction sched as [|e r IH]; intros s H; cbn; [exact H|]. apply IH. apply cstep_inv. exact H. Qed.
+
+  Lemma cinit_inv bs : inv (cinit bs).
+  Proof.
+    unfold inv, cinit; cbn [c_last c_threads c_log]. split; [|cbn; repeat split; auto; try constructor; intros t [] ].
+    intros tid th Hn. apply nth_error_In in Hn. apply in_map_iff in Hn as (b & <- & _).
+    unfold thr_inv, mk_thread; cbn. repeat split; try congruence; try (destruct H; congruence); try (intros [?|?]; congruence); auto.
+  Qed.
+
+  Lemma reach_inv bs sched : inv (cexec sched (cinit bs)).
+  Proof. apply cexec_inv, cinit_inv. Qed.
+
+  (* ---------- the statements ---------- *)
+
+  (* spacing, in the order of the successful CASes; the stored time is the last pass time *)
+  Lemma conc_spacing bs sched :
     let s := cexec sched (cinit bs) in
-    rollback_free (c_log s) -> stale_free (c_log s) ->
     spaced iv last0 (grants_of (c_log s)) /\ c_last s = last_pass last0 (grants_of (c_log s)).
-  Proof. intro s. exact (proj2 (cexec_good sched _ (cinit_good bs))). Qed.
+  Proof. intro s. exact (proj1 (proj2 (proj2 (reach_inv bs sched)))). Qed.
+
+  (* every admitted caller: 0 <= wait <= maxq *)
+  Lemma conc_wait_bound bs sched :
+    Forall (fun o => match o with Some (OPass w) => 0 <= w <= maxq | _ => True end)
+           (outcomes (cexec sched (cinit bs))).
+  Proof.
+    destruct (reach_inv bs sched) as (It & Ie & _).
+    unfold outcomes. apply Forall_forall. intros o Ho. apply in_map_iff in Ho as (th & <- & Hin).
+    apply In_nth_error in Hin as (tid & Hn).
+    destruct (t_out th) as [[| w |]|] eqn:E; auto.
+    destruct (It _ _ Hn) as (_ & _ & _ & _ & H5 & _). destruct (H5 w E) as (_ & seen & Hin).
+    rewrite Forall_forall in Ie. specialize (Ie _ Hin). cbn in Ie. unfold ThrottleConc.pass_of in Ie. lia.
+  Qed.
+
+  (* every grant: pass time = max(seen + interval, own clock reading), wait within the limit,
+     batch admissible, and it is the outcome of that caller *)
+  Lemma conc_grants_ok bs sched :
+    let s := cexec sched (cinit bs) in
+    Forall (fun e => match e with
+                     | EGrant tid now b w seen =>
+                         now + w = Z.max (seen + iv b) now /\ 0 <= w <= maxq /\ 1 <= b /\ blk b = false /\
+                         exists th, nth_error (c_threads s) tid = Some th /\
+                                    t_out th = Some (OPass w) /\ t_now th = now /\ t_b th = b
+                     | _ => True end) (c_log s).
+  Proof.
+    intro s. destruct (reach_inv bs sched) as (_ & Ie & _).
+    eapply Forall_impl; [|exact Ie]. intros e He. destruct e; auto. cbn in He.
+    destruct He as (H1 & H2 & H3 & H4 & th & Hn & _ & Hr). unfold ThrottleConc.pass_of in H1.
+    repeat split; try lia; auto. exists th. auto.
+  Qed.
+
+  Lemma conc_pass_ge_arrival bs sched :
+    Forall (fun g => g_now g <= g_pass g) (grants_of (c_log (cexec sched (cinit bs)))).
+  Proof.
+    pose proof (conc_grants_ok bs sched) as H. cbv zeta in H.
+    induction H as [|e r He Hr IH]; cbn [grants_of]; [constructor|].
+    destruct e; auto. constructor; [cbn; lia|exact IH].
+  Qed.
+
+  (* a rejection at the queueing test is justified by the value the caller loaded *)
+  Lemma conc_block_seen bs sched : 0 <= maxq ->
+    Forall (fun e => match e with EBlock _ now b seen => seen + iv b - now > maxq | _ => True end)
+           (c_log (cexec sched (cinit bs))).
+  Proof.
+    intro Hq. destruct (reach_inv bs sched) as (_ & Ie & _).
+    eapply Forall_impl; [|exact Ie]. intros e He. destruct e; auto. cbn in He. unfold ThrottleConc.pass_of in He. lia.
+  Qed.
+
+  (* every rejected caller: batch over the threshold, or a logged rejection on a loaded value *)
+  Lemma conc_block_only_if bs sched tid th : 0 <= maxq ->
+    let s := cexec sched (cinit bs) in
+    nth_error (c_threads s) tid = Some th -> t_out th = Some OBlock ->
+    1 <= t_b th /\
+    (blk (t_b th) = true \/
+     exists seen, In (EBlock tid (t_now th) (t_b th) seen) (c_log s) /\ seen + iv (t_b th) - t_now th > maxq).
+  Proof.
+    intros Hq s Hn Ho. pose proof (reach_inv bs sched) as (It & _).
+    destruct (It _ _ Hn) as (_ & _ & _ & _ & _ & H6). destruct (H6 Ho) as (_ & Hb & Hd).
+    split; [exact Hb|]. destruct Hd as [Hd|[seen Hd]]; [left; exact Hd|right].
+    exists seen. split; [exact Hd|].
+    pose proof (conc_block_seen bs sched Hq) as Hf. rewrite Forall_forall in Hf. exact (Hf _ Hd).
+  Qed.
+
+  (* lock-freedom *)
+  Lemma conc_fails_justified bs sched : fails_justified [] (c_log (cexec sched (cinit bs))).
+  Proof. exact (proj1 (proj2 (proj2 (proj2 (reach_inv bs sched))))). Qed.
+
+  Lemma cexec_length sched s : length (c_threads (cexec sched s)) = length (c_threads s).
+  Proof.
+    unfold ThrottleConc.cexec. revert s. induction sched as [|e r IH]; intro s; cbn [fold_left]; [reflexivity|]. rewrite IH.
+    destruct e as [t|t]; cbn; auto. destruct (nth_error (c_threads s) t) as [th|]; auto.
+    destruct (tstep t (c_last s) (c_clock s) th) as [[l th'] g]. cbn. apply upd_nth_length.
+  Qed.
+
+  Lemma conc_fails_bound bs sched tid : (tid < length bs)%nat ->
+    let s := cexec sched (cinit bs) in
+    (fails tid (c_log s) <= others tid (c_log s))%nat /\ (others tid (c_log s) <= length bs - 1)%nat.
+  Proof.
+    intros Ht s. pose proof (reach_inv bs sched) as (It & _ & _ & _ & Hnd & Hlt). fold s in It, Hnd, Hlt.
+    assert (Hlen : length (c_threads s) = length bs) by (subst s; rewrite cexec_length; apply map_length).
+    split.
+    - destruct (nth_error (c_threads s) tid) as [th|] eqn:En; [|apply nth_error_None in En; lia].
+      destruct (It _ _ En) as (_ & _ & _ & H4 & _). exact H4.
+    - unfold others. set (f := fun t => negb (Nat.eqb t tid)).
+      assert (Hnd' : NoDup (tid :: filter f (gtids (c_log s)))).
+      { constructor; [|apply NoDup_filter; exact Hnd]. intro Hin. apply filter_In in Hin as [_ Hin].
+        unfold f in Hin. rewrite Nat.eqb_refl in Hin. discriminate. }
+      assert (Hincl : incl (tid :: filter f (gtids (c_log s))) (seq 0 (length bs))).
+      { intros t [<-|Hin]; apply in_seq; [lia|]. apply filter_In in Hin as [Hin _]. specialize (Hlt _ Hin). lia. }
+      pose proof (NoDup_incl_length Hnd' Hincl) as Hle. rewrite seq_length in Hle. cbn [length] in Hle. lia.
+  Qed.
 End Generic.
